@@ -213,7 +213,8 @@ PROPS = {
         ],
         "groups": [G("corr_sun", "hour_angle", 2500, 60000), G("corr_sun", "transit", 3000, 80000),
                    G("corr_sun", "sun_events", 3000, 80000), G("corr_sun", "sun_chain", 1400, 30000),
-                   G("corr_sun", "refraction", 1000, 20000)],
+                   G("corr_sun", "refraction", 1000, 20000),
+                   G("corr_loc", "location", 1200, 20000)],
         "unproved": ["agreement with an independent ephemeris within 0.04/0.08/0.3/0.5°",
                      "two-pass fixed-point residual"],
         "assumes": ["cos(lat)·cos(decl) ≠ 0 (latitude clamped to ±89.8°)"],
@@ -468,6 +469,22 @@ PROPS = {
         "trusted_extra": ["harness/effects.py (static effect summary, over-approximation)"],
     },
 }
+
+_c = PROPS["C15"]
+_c.setdefault("generators", []).append("effects")
+_c["lean_modules"].append("Astral.Props.JulianPure")
+_c["theorems"].append("Astral.JulianPure.julian_pure")
+_c.setdefault("trusted_extra", []).append("harness/effects.py (static effect summary, over-approximation)")
+
+for _p in ["C17", "C18"]:
+    _c = PROPS[_p]
+    _c.setdefault("generators", [])
+    if "effects" not in _c["generators"]:
+        _c["generators"].append("effects")
+    _c["lean_modules"].append("Astral.Props.GeoPure")
+    _c["theorems"].append("Astral.GeoPure.geo_no_hidden_state")
+    _c.setdefault("trusted_extra", [])
+    _c["trusted_extra"].append("harness/effects.py (static effect summary, over-approximation)")
 
 for _p in PURE_PROPS:
     _c = PROPS[_p]
